@@ -198,7 +198,7 @@ fn check_concat(ctx: &mut Ctx, descs: &[Desc], items: Option<&[(Box<dyn Ser>, Ve
 }
 
 fn small_scope(ctx: &mut Ctx) {
-    let n = ctx.tier.pick(8, 10);
+    let n = ctx.tier.pick(8, 12);
     for len in 0..=n {
         for word in 0..(1u64 << len) {
             let bits = BitsDesc::Word { len, word };
@@ -262,8 +262,8 @@ fn explore(ctx: &mut Ctx) {
         }
     }
     if thorough {
-        let step = (cat.len() / 24).max(1);
-        let sub: Vec<usize> = (0..cat.len()).step_by(step).take(24).collect();
+        let step = (cat.len() / 36).max(1);
+        let sub: Vec<usize> = (0..cat.len()).step_by(step).take(36).collect();
         for &i in &sub {
             for &j in &sub {
                 for &k in &sub {
